@@ -587,7 +587,7 @@ func (r *stateResolverV2) calculateFullAuthChainAndConflictedSubgraph(
 	type pduVisitors struct {
 		pdu PDU
 		// the current exploration path
-		visiting []string
+		visiting []PDU
 		// flag to indicate that the starting node is conflicted.
 		// We are only interested in doing the book-keeping for 'visiting' for conflicted events.
 		originConflicted bool
@@ -617,11 +617,12 @@ func (r *stateResolverV2) calculateFullAuthChainAndConflictedSubgraph(
 		// check if the current node is conflicted. If so, then ta-da, we found
 		// a subgraph. This will add single conflicted nodes but shrug.
 		if shouldCalculateConflictedSubgraph && conflictedEvents.Contains(curr.pdu) {
-			conflictedSubgraphEventIDs := append(slices.Clone(curr.visiting), curr.pdu.EventID())
-			fmt.Printf("found conflicted subgraph %v\n", conflictedSubgraphEventIDs)
-			for _, eventID := range conflictedSubgraphEventIDs {
-				conflictedSubgraph.Insert(r.authEventMap[eventID])
+			// The path is kept as events rather than event IDs: its first element is a state
+			// event, which need not be among the supplied auth events.
+			for _, pathEvent := range curr.visiting {
+				conflictedSubgraph.Insert(pathEvent)
 			}
+			conflictedSubgraph.Insert(curr.pdu)
 		}
 
 		for _, authEventID := range curr.pdu.AuthEventIDs() {
@@ -655,7 +656,7 @@ func (r *stateResolverV2) calculateFullAuthChainAndConflictedSubgraph(
 			}
 
 			// append this node to the visiting set
-			newVisiting := append(slices.Clone(curr.visiting), curr.pdu.EventID())
+			newVisiting := append(slices.Clone(curr.visiting), curr.pdu)
 			stack.Push(pduVisitors{
 				pdu:              authEvent,
 				visiting:         newVisiting,
